@@ -130,9 +130,18 @@ def install(I, torch):
     def ml_init(I2, self, modules=None):
         m_init(I2, self)
         self.f["_tpv_list"] = []
+        if modules is not None and hasattr(modules, "tpv_sym_iter"):
+            # a symbolic family of modules (contract-level abstraction of "any number of modules")
+            self.f["_tpv_family"] = modules
+            return
         if modules is not None:
             for m in I2.iterate(modules):
                 ml_append(I2, self, m)
+
+    def ml_iter(I2, self):
+        if "_tpv_family" in self.f:
+            return self.f["_tpv_family"]
+        return list(self.f["_tpv_list"])
 
     def ml_append(I2, self, m):
         n = len(self.f["_tpv_list"])
@@ -144,7 +153,7 @@ def install(I, torch):
         {
             "__init__": ml_init,
             "append": ml_append,
-            "__iter__": lambda I2, self: list(self.f["_tpv_list"]),
+            "__iter__": ml_iter,
             "__len__": lambda I2, self: len(self.f["_tpv_list"]),
             "__getitem__": lambda I2, self, k: self.f["_tpv_list"][k],
         }
